@@ -81,13 +81,7 @@ def Pt.le (a b : Pt α) : Bool :=
 def sortIvs (es : List (Iv α)) : List (Iv α) := es.mergeSort Iv.le
 def sortPts (ps : List (Pt α)) : List (Pt α) := ps.mergeSort Pt.le
 
-/-- `IntervalTier._validate` -/
-def ivsValid : List (Iv α) → Bool
-  | [] => true
-  | [a] => decide (a.s < a.e)
-  | a :: b :: rest => decide (a.s < a.e) && !decide (b.s < a.e) && ivsValid (b :: rest)
-
-/-- first failing check of `_validate`: all `start >= end` checks come first, then the overlaps;
+/-- `IntervalTier._validate`: first failing check of `_validate`: all `start >= end` checks come first, then the overlaps;
 both raise `TextgridStateError`, so only the Boolean matters. -/
 def ivsAllPos (es : List (Iv α)) : Bool := es.all fun a => decide (a.s < a.e)
 def ivsNoOverlap : List (Iv α) → Bool
@@ -160,7 +154,8 @@ structure ITier.WF (t : ITier Int) : Prop where
   span : t.lo ≤ t.hi
 
 structure PTier.WF (t : PTier Int) : Prop where
-  sorted : t.ps.Pairwise (fun a b => a.t ≤ b.t)
+  /-- sorted as `list.sort()` leaves `Point` tuples: by time, ties by label -/
+  sorted : t.ps.Pairwise (fun a b => Pt.le a b = true)
   inLo : ∀ p ∈ t.ps, t.lo ≤ p.t
   inHi : ∀ p ∈ t.ps, p.t ≤ t.hi
   stripped : ∀ p ∈ t.ps, pyStrip p.l = p.l
